@@ -88,6 +88,26 @@ func C15Lit(bi, form, k int) {
 		d, v = dec(k)
 		lit = app(nil, "-", d)
 		neg = true
+	case 3:
+		if !b.signed {
+			return
+		}
+		var h []byte
+		h, v = hexDigits(k)
+		lit = app(nil, "-0x", h)
+		neg = true
+	case 4:
+		// leading zeros are not octal: 0 followed by decimal digits
+		if k > 2 {
+			k = 2
+		}
+		var d []byte
+		d, v = dec(k)
+		lit = app(nil, "0x0", d)
+		v = 0
+		for _, c := range d {
+			v = v<<4 | uint64(c-'0')
+		}
 	}
 	if neg {
 		vstub.Assume(v <= b.minAbs)
@@ -253,9 +273,9 @@ func C15Op(form int) {
 
 // VH_C15 entry points (sharded by base type).
 func c15Lits(bi int, thorough bool) {
-	form := vstub.Choose(0, 2)
+	form := vstub.Choose(0, 4)
 	maxK := 3
-	if form == 1 {
+	if form == 1 || form == 3 || form == 4 {
 		maxK = 2
 	}
 	if thorough {
